@@ -209,3 +209,23 @@ Theorem C03_decl_double_rounding_refuted :
   /\ y_run (PExpr (EConv TFloat32 w_decl_round)) = g_run (PExpr (EConv TFloat32 w_decl_round)).
 Proof. exact decl_double_rounding_refuted. Qed.
 Print Assumptions C03_decl_double_rounding_refuted.
+
+(** A binary expression under a typed declaration takes the declared type and keeps its go/constant
+    value; the only check it gets is the one of convertConstantValue at its use: every integer
+    outside the int64 range is refused there, for every node type. *)
+Theorem C03_typed_use_outside_int64 :
+  forall z t, in_range TInt64 z = false -> const_to_machine t (CInt z) = Err.
+Proof. exact typed_use_outside_int64. Qed.
+Print Assumptions C03_typed_use_outside_int64.
+
+(** const c int64 = 1 << 63 is rejected by both; const c uint64 = 1 << 63 is rejected by yaegi only;
+    const c int32 = 1 << 40 is accepted by yaegi only (0): region decl-type-propagation *)
+Theorem C03_typed_use_boundary_refuted :
+  y_run (one_const true (Some TInt64) (EBin BShl (EInt 1) (EInt 63))) = Rejected
+  /\ g_run (one_const true (Some TInt64) (EBin BShl (EInt 1) (EInt 63))) = Rejected
+  /\ y_run (one_const true (Some TUint64) (EBin BShl (EInt 1) (EInt 63))) = Rejected
+  /\ g_run (one_const true (Some TUint64) (EBin BShl (EInt 1) (EInt 63))) = Printed [(TUint64, OI 9223372036854775808)]
+  /\ y_run (one_const true (Some TInt32) (EBin BShl (EInt 1) (EInt 40))) = Printed [(TInt32, OI 0)]
+  /\ g_run (one_const true (Some TInt32) (EBin BShl (EInt 1) (EInt 40))) = Rejected.
+Proof. exact typed_use_boundary_witness. Qed.
+Print Assumptions C03_typed_use_boundary_refuted.
